@@ -141,10 +141,11 @@ def run(ctx):
     for entry_idx, entry in enumerate(ENTRIES):
         for depth in depths:
             # plan-building code compiled from a string (exec, doctest, notebook cells) has a "<...>" file name
-            for ipy in ([None] if ctx.quick and depth not in (2, 5) else [None, "angle"]):
+            for ipy in ([None] if ctx.quick and depth not in (2, 5) else [None, "angle", "ujname"]):
                 src, uframes = gen_module(entry, depth)
-                path = "/ujgen/%s_%d.py" % (entry, depth) if ipy is None else "<generated %s_%d>" % (entry, depth)
-                ns = {}
+                path = "<generated %s_%d>" % (entry, depth) if ipy == "angle" else "/ujgen/%s_%d.py" % (entry, depth)
+                # a user module may be called anything - also something that merely starts with the library's name
+                ns = {"__name__": "uberjob_pipelines"} if ipy == "ujname" else {}
                 exec(compile(src, path, "exec"), ns)
                 plan, reg = uberjob.Plan(), uberjob.Registry()
                 node, store = plan.call(fn, 0), MemStore(3)
@@ -181,7 +182,7 @@ def run(ctx):
                 expected = [n_internal, 1, 1 if trunc else 0, len(got)] + [x for fr in got for x in intern.frame(fr)]
                 stack_ids = [intern.frame(fr) for fr in real]
                 model_cases.append(("%s/%d" % (entry, depth), entry_idx, stack_ids, expected, "capture", None))
-                ctx.count("file_name_kind", "file" if ipy is None else "<...>")
+                ctx.count("file_name_kind", {None: "file", "angle": "<...>", "ujname": "module named uberjob_pipelines"}[ipy])
                 ctx.case((entry, depth, "capture", ipy), sample={"entry": entry, "depth": depth, "captured": got, "truncated": trunc} if depth == 5 else None)
                 ctx.count("entry", entry)
                 ctx.count("depth", depth)
@@ -316,6 +317,31 @@ def phases(ctx, uberjob, MemStore, Trunc, check_chain):
             ctx.broke("C19 harness: implicit gather scenario did not fail", shape)
         except uberjob.CallError as e:
             expect("run/implicit-gather/" + shape, "implicit_gather", e, lambda c: c.fn is want, lb)
+    # a call of the OUTER plan runs an inner plan that fails: the error of the outer run names the outer call and its line
+    for where in ("call", "store-read"):
+        inner = uberjob.Plan()
+        ib = inner.call(boom, 1)
+
+        def nested(x):
+            return uberjob.run(inner, output=ib, progress=None, max_workers=1)
+        p, r = uberjob.Plan(), uberjob.Registry()
+        if where == "call":
+            b = p.call(nested, 1); lb = here()
+            pred = lambda cl: cl is b
+        else:
+            class NestedStore(MemStore):
+                def read(self_):
+                    return nested(0)
+            st_ = NestedStore()
+            st_.t = __import__("datetime").datetime(2020, 1, 1)
+            s_ = r.source(p, st_); lb = here()
+            b = p.call(ok, s_)
+            pred = lambda cl: cl.fn is NestedStore.read
+        try:
+            uberjob.run(p, registry=r if where != "call" else None, output=b, progress=None, max_workers=1)
+            ctx.broke("C19 harness: nested scenario did not fail", where)
+        except uberjob.CallError as e:
+            expect("run/nested-run-in-" + where, "nested", e, pred, lb)
     # store write fails
     for fail, tag in (("write", "run/store-write"), ("read", "run/store-read-back")):
         p, r = uberjob.Plan(), uberjob.Registry()
